@@ -732,6 +732,7 @@ def oracle(p):
     replace_checks(rng, grids, specs, dom, n, report, counts)
     composite_checks(rng, grids, specs, max(20, n // 3), report, counts)
     composite_direct_checks(rng, grids, specs, max(24, n // 4), report, counts)
+    expflow_sharing_checks(rng, max(24, n // 5), report, counts)
     # de-duplicate by key keeping the shortest history
     best = {}
     for f in fails:
@@ -894,6 +895,58 @@ def composite_checks(rng, grids, specs, n, report, counts):
                                    f"composite call differs from a freshly built composite of the members' current state by {d:.3g}", list(hist))
         except Exception as e:  # noqa
             report(f"C09:SequentialTransform:{hist[-1]['op']}:raises", f"{type(e).__name__}: {str(e)[:120]}", list(hist))
+
+
+def expflow_sharing_checks(rng, n, report, counts):
+    """regressions 5d5a4a7 / be342f9: shallow copies of a velocity-field transform share the ExpFlow module; changing the
+    grid of one (in place or through t.grid(g)) must leave the others exponentiating with the flag of THEIR grid, and
+    every object must evaluate like a freshly built one; steps=0 models can be evaluated at all"""
+    counts["expflow_checks"] = 0
+    for it in range(n):
+        flag = rng.random() < 0.5
+        steps = rng.choice([0, 1, 5, 5])
+        g = Grid(size=(9, 7), align_corners=flag)
+        hist = [{"op": "new", "align_corners": flag, "steps": steps}]
+        try:
+            v = smooth(rng, (2, 7, 9), 0.08)
+            t = S.StationaryVelocityFieldTransform(g, params=v, steps=steps)
+            objs = [t]
+            x = torch.rand((1, 6, 2), generator=torch.Generator().manual_seed(9000 + it)) * 1.2 - 0.6
+            with torch.no_grad():
+                t(x)
+                for _ in range(rng.randint(1, 4)):
+                    o = rng.randrange(len(objs))
+                    k = rng.choice(["grid", "grid", "grid_", "copy", "inverse"])
+                    a = rng.random() < 0.6
+                    hist.append({"op": k, "o": o, "align_corners": (not objs[o].grid().align_corners()) if a else objs[o].grid().align_corners()})
+                    ng = objs[o].grid().align_corners(hist[-1]["align_corners"])
+                    if k == "grid":
+                        objs.append(objs[o].grid(ng))
+                    elif k == "grid_":
+                        objs[o].grid_(ng)
+                    elif k == "copy":
+                        objs.append(copy.copy(objs[o]))
+                    else:
+                        objs.append(objs[o].inverse())
+                    for oi, u in enumerate(objs):
+                        counts["expflow_checks"] += 1
+                        if bool(u.exp.align_corners) != bool(u.grid().align_corners()):
+                            report("C09:StationaryVelocityFieldTransform.grid_:shared-ExpFlow:align_corners-of-another-grid",
+                                   f"after {k} on object {o}, object {oi} has a grid with align_corners={u.grid().align_corners()} but exponentiates "
+                                   f"with align_corners={u.exp.align_corners} (the ExpFlow module shared by shallow copies was modified)", list(hist))
+                            raise StopIteration
+                        tw = S.StationaryVelocityFieldTransform(u.grid(), params=u.data().detach().clone(), steps=steps)
+                        tw.exp.scale = float(u.exp.scale)
+                        d = maxdiff(u(x), tw(x))
+                        if d > 1e-5:
+                            report("C09:StationaryVelocityFieldTransform.__call__:after-grid-change-of-a-copy",
+                                   f"object {oi} evaluates differently from a fresh transform with its state by {d:.3g}", list(hist))
+                            raise StopIteration
+        except StopIteration:
+            pass
+        except Exception as e:  # noqa
+            key = "C09:StationaryVelocityFieldTransform.__call__:steps=0:raises" if steps == 0 else f"C09:StationaryVelocityFieldTransform.{hist[-1]['op']}:expflow-raises"
+            report(key, f"{type(e).__name__}: {str(e)[:120]}", list(hist))
 
 
 def composite_direct_checks(rng, grids, specs, n, report, counts):
